@@ -419,3 +419,54 @@ Fixpoint wscan_loop (fuel gfuel B : nat) (ko : bool) (ts : N) (retry : nat -> op
 Definition wscan (fuel gfuel B : nat) (ko : bool) (ts : N) (w : world) (retry : nat -> option retry_kind)
            (lay : nat -> layout) (lo hi : key) (rv : bool) : outcome :=
   wscan_loop fuel gfuel (norm_batch B) ko ts retry lay 0 (w, []) (init_cursor lo hi rv).
+
+(* ---------------------------------------------------------------- (h) a store that honours committed_locks *)
+(* TiKV / unistore read THROUGH a lock whose transaction the request names in committed_locks (the
+   reader has seen it committed at or below its timestamp): the lock's own value is the answer.  The
+   snapshot object keeps that set (KVSnapshot.committedLocks) next to the ignored set; SetSnapshotTS must
+   drop BOTH: each is a statement about one timestamp.  [lands]: whether the asynchronous ResolveLock of a
+   read has landed before the retry (a read does not wait for it). *)
+Definition store_get_rt (s : kstate) (ts : N) (rs cs : list N) : sres :=
+  match ks_lock s with
+  | Some l =>
+      if memN (l_start l) cs then
+        match l_kind l with
+        | LPut v => SVal (Some v)
+        | LDel => SVal None
+        | LLock | LPess => SVal (vis (ks_ws s) ts)
+        end
+      else if blocks l ts rs then SLocked l else SVal (vis (ks_ws s) ts)
+  | None => SVal (vis (ks_ws s) ts)
+  end.
+
+Record rstate := mkRst { st_w : world; st_rs : list N; st_cs : list N }.
+
+Definition handle_lock_rt (lands : bool) (ts : N) (st : rstate) (kl : key * lock) : rstate :=
+  let '(k, l) := kl in
+  let w := st_w st in
+  let '(tx', s) := probe (w_txns w) (l_start l) in
+  let keys' := if lands && finished s then k_set (w_keys w) k (resolve_ks tx' (k_get (w_keys w) k)) else w_keys w in
+  let w' := mkWorld keys' tx' in
+  match classify true s ts with
+  | Ignore => mkRst w' (l_start l :: st_rs st) (st_cs st)
+  | Access => mkRst w' (st_rs st) (l_start l :: st_cs st)
+  | Wait => mkRst w' (st_rs st) (st_cs st)
+  end.
+
+Fixpoint get_rt (fuel : nat) (lands : nat -> bool) (i : nat) (st : rstate) (ts : N) (k : key) : option (option value) * rstate :=
+  match fuel with
+  | O => (None, st)
+  | S f =>
+      match store_get_rt (k_get (w_keys (st_w st)) k) ts (st_rs st) (st_cs st) with
+      | SVal o => (Some o, st)
+      | SLocked l => get_rt f lands (S i) (handle_lock_rt (lands i) ts st (k, l)) ts k
+      end
+  end.
+
+(* programs on one snapshot object over such a store; PSetTS drops the cache-free object's two sets *)
+Definition q_step (fuel : nat) (lands : nat -> bool) (ver : N) (st : rstate) (o : pop) : option (option value) * (N * rstate) :=
+  match o with
+  | PGet k => let '(a, st') := get_rt fuel lands 0 st ver k in (a, (ver, st'))
+  | PSetTS ts => (None, (ts, mkRst (st_w st) [] []))
+  | PFinish t => (None, (ver, mkRst (mkWorld (w_keys (st_w st)) (finish_tx (w_txns (st_w st)) t)) (st_rs st) (st_cs st)))
+  end.
